@@ -288,3 +288,44 @@ Proof.
     + intros p Hp Hq. rewrite G4; [|assumption|intro Hin; apply Hq; now right].
       apply Hfr; [assumption|]. intro E. apply Hq. left. now symmetry.
 Qed.
+
+(* ---- histories *)
+(* any number of further no-change reconfigurations: every non-temporary path (every output in
+   particular) keeps the content AND the mtime the first configuration gave it *)
+Theorem reconfigure_history_identity outs s :
+  NoDup (map fst outs) -> tilde_free (map fst outs) ->
+  exists s1, configure outs s = Ok s1 /\ forall n, exists sn, configure_n n outs s1 = Ok sn
+    /\ (forall p, (forall d, In d (map fst outs) -> p <> tilde d) -> fs_lookup p sn = fs_lookup p s1)
+    /\ (forall d, In d (map fst outs) -> fs_lookup d sn = fs_lookup d s1).
+Proof.
+  intros Hnd Htf. destruct (configure_post outs s Hnd Htf) as (s1 & H1 & H2 & _).
+  exists s1. split; [exact H1|].
+  assert (forall d, In d (map fst outs) -> forall d', In d' (map fst outs) -> d <> tilde d') as Hout.
+  { intros d Hd d' Hd' E. apply (Htf d' Hd'). now rewrite <- E. }
+  assert (forall n t, (forall p, (forall d, In d (map fst outs) -> p <> tilde d) -> fs_lookup p t = fs_lookup p s1) ->
+          exists sn, configure_n n outs t = Ok sn
+            /\ (forall p, (forall d, In d (map fst outs) -> p <> tilde d) -> fs_lookup p sn = fs_lookup p s1)) as Hn.
+  { induction n as [|k IH]; intros t Ht; cbn; [exists t; split; [reflexivity|exact Ht]|].
+    destruct (configure_unchanged outs t Htf) as (t' & G1 & G2 & _).
+    { intros d c Hin. destruct (H2 d c Hin) as (f & Hf & Hc). exists f. split; [|exact Hc].
+      rewrite Ht; [exact Hf|]. apply Hout. now apply (in_map fst _ (d, c)). }
+    rewrite G1. apply IH. intros p Hp. rewrite G2 by exact Hp. now apply Ht. }
+  intro n. destruct (Hn n s1 (fun _ _ => eq_refl)) as (sn & G1 & G2).
+  exists sn. split; [exact G1|]. split; [exact G2|]. intros d Hd. apply G2. now apply Hout.
+Qed.
+
+(* the content of every output is a function of the inputs only: two build directories with
+   arbitrary different histories end up with the same bytes in every output *)
+Theorem configure_content_history_independent outs s s' :
+  NoDup (map fst outs) -> tilde_free (map fst outs) ->
+  exists t t', configure outs s = Ok t /\ configure outs s' = Ok t'
+    /\ forall d c, In (d, c) outs ->
+         option_map fdata (fs_lookup d t) = Some c /\ option_map fdata (fs_lookup d t') = Some c.
+Proof.
+  intros Hnd Htf.
+  destruct (configure_post outs s Hnd Htf) as (t & H1 & H2 & _).
+  destruct (configure_post outs s' Hnd Htf) as (t' & G1 & G2 & _).
+  exists t, t'. repeat split; auto.
+  - destruct (H2 d c H) as (f & -> & <-). reflexivity.
+  - destruct (G2 d c H) as (f & -> & <-). reflexivity.
+Qed.
